@@ -181,7 +181,7 @@ Proof.
   all: try (apply before_app_other; [assumption|discriminate]).
   all: try (apply cancelled_last_app1; [assumption|]; destruct (has_ct (cbs h)) eqn:Ehc; [specialize (Ictr eq_refl); discriminate|reflexivity]).
   all: try (intro Hx; specialize (Ictr Hx); discriminate).
-  all: try lia.
+  all: try (match goal with |- @eq Z _ _ => lia end).
   all: cbn [in_conn ret_pc may_be_open dial_pc] in *.
   all: try (apply Ioc; reflexivity).
   all: try (intros _ Hne; exfalso; apply Hne; apply Ist; reflexivity).
@@ -231,7 +231,7 @@ Proof.
      rewrite ?cbs_app, ?has_cancel_app, ?has_retry_app, ?has_ct_app; cbn [cbs has_cancel has_retry has_ct existsb app orb];
      rewrite ?app_nil_r, ?orb_false_r, ?length_upd_nth, ?tl_upd_nth; try assumption.
   all: try (apply before_app_other; [assumption|discriminate]).
-  all: try (rewrite (count_upd_nth _ _ _ _ Hn); unfold started; cbn [set_w set_exit set_closed c_w]; rewrite ?Ew; lia).
+  all: try (match goal with |- @eq Z _ _ => rewrite (count_upd_nth _ _ _ _ Hn); unfold started; cbn [set_w set_exit set_closed c_w]; rewrite ?Ew; generalize (main_c m) (count_started cs); clear; intros; lia end).
   all: try (intro Hx; rewrite upd_nth_nil; auto; fail).
   all: try (intros Hx Hy; apply Ird; [assumption|]; intro; subst; apply Hy; reflexivity).
   all: try (eapply Forall_upd_nth_at; [eassumption|assumption|]; cbn [set_w set_exit set_closed c_w c_exit c_open c_quit past_exit];
@@ -355,7 +355,7 @@ Theorem wg_drains_refuted :
   exists cs, let s := fst (run init cs) in
     s_m s = MReturned /\ s_wg s = 0 /\ exists c, In c (s_cs s) /\ c_w c = WNotStarted.
 Proof.
-  exists wg_gap_schedule. cbn. repeat split. eexists. split; [left; reflexivity|reflexivity].
+  exists wg_gap_schedule. vm_compute. repeat split. eexists. split; [left; reflexivity|reflexivity].
 Qed.
 
 (* ... and that goroutine then calls wg.Add(1) on the drained wait group *)
